@@ -218,7 +218,7 @@ func cmdCheck(args []string) int {
 		}
 		if r.Vacuity == "unsat" {
 			exit = 1
-			report(r.Key+"/vacuity", r.Key, "assumptions of the function are contradictory (vacuous proof)", "", "", "")
+			report(r.Key+"/vacuity", r.Key, "assumptions of the function are contradictory (vacuous proof) "+strings.Join(r.VacuousAt, ","), "", "", "")
 		}
 		vac[r.Display] = r.Vacuity
 		if len(r.Obls) == 0 && len(r.Errors) == 0 {
